@@ -257,7 +257,9 @@ theorem step_engine (s : Api) (op : Op) : (step s op).1.engine = s.engine := by
   | clear =>
     simp only [step, clear]
     split
-    · rw [setIoRatio_engine]
+    · split
+      · rw [setIoRatio_engine]
+      · rfl
     · rfl
   | error => rfl
   | engine => simp only [step]; split <;> rfl
